@@ -97,6 +97,12 @@ FillRegionS(S, rs, cs, re, ce, ch) ==
   IN Paint(S, In, ch)
 FillS(S, ch) == LET In(i, j) == TRUE IN Paint(S, In, ch)
 
+\* a rejected operation: the character argument is one the screen does not take (bytes on a screen built with
+\* encoding=None - "passing bytes in will raise TypeError" -, bytes that are not valid in the screen's encoding
+\* under strict error handling), the call raises and nothing is put / inserted / filled: every cell, the cursor,
+\* the saved cursor and the scroll region are what they were
+RejectedS(S) == S
+
 \* cursor movement: only `cur` changes, always constrained to the screen
 CursorHomeS(S, r, c)  == [S EXCEPT !.cur = <<CR(r), CC(c)>>]
 CursorBackS(S, n)     == [S EXCEPT !.cur = <<S.cur[1], CC(S.cur[2] - n)>>]
